@@ -1,7 +1,6 @@
-(** C12 (stretch): the CONCRETE typing of Method objects - first child a childless pOpIntNamePath object with the name-path row, second
-    child a pOpBytePrefix object with its row and a number ([TM3]) - implies [TM2] and, unlike [TM2], IS an invariant of the last two
-    passes of ParseAML (resolveMethodCalls, connectNonNamedObjArgs): it satisfies the hypotheses [Kmove] / [Kupd] of the abstract
-    invariant threaded through ParserTotalNonNamed.v / ParserTotalCalls.v. *)
+(** C12 (stretch): the concrete typing [TM3] of Method objects (ParserTotalShape.v) is an invariant of each of the last two passes of
+    ParseAML taken alone (resolveMethodCalls, connectNonNamedObjArgs), from any state with [R], valid indexes, slices inside, the
+    []byte typing and a live parentless root; a witness state that holds a Method. *)
 From Coq Require Import NArith Arith List Bool Lia.
 From Coq Require Import ZifyBool ZifyN ZifyNat.
 From FF Require Import Lib.Word Gen.Consts_device_acpi_aml Gen.Consts_aml_tree Aml.Stream Aml.Lex Aml.LexProofs
@@ -14,64 +13,7 @@ From FF Require Import Lib.Word Gen.Consts_device_acpi_aml Gen.Consts_aml_tree A
 Import ListNotations.
 Local Open Scope N_scope.
 
-Definition bpIdx : N := match opcodeTableIndex aml_pOpBytePrefix true with Some i => i | None => 0 end.
 
-Definition mtyped3 (t : T) (g : ghost) (m : N) : Prop :=
-  exists a0 a1 rest a0o a1o v, kids g m = a0 :: a1 :: rest /\
-    tget t a0 = Some a0o /\ o_opcode a0o = aml_pOpIntNamePath /\ o_infoIndex a0o = npIdx /\ kids g a0 = [] /\
-    tget t a1 = Some a1o /\ o_opcode a1o = aml_pOpBytePrefix /\ o_infoIndex a1o = bpIdx /\ o_value a1o = Some (VNum v).
-
-Definition TM3 (t : T) (g : ghost) : Prop :=
-  forall m mo, tget t m = Some mo -> o_opcode mo = aml_pOpMethod -> mtyped3 t g m.
-
-Lemma TM3_TM2 t g : TM3 t g -> TM2 t g.
-Proof.
-  intros H m mo Hm Hop. destruct (H m mo Hm Hop) as (a0 & a1 & rest & a0o & a1o & v & K1 & K2 & K3 & K4 & _ & K6 & K7 & K8 & K9).
-  exists a0, a1, rest, a0o, a1o, v. split; [exact K1|]. split; [exact K2|].
-  split; [apply namepath_plain; [exact K3|unfold rowis; rewrite K4; vm_compute; reflexivity]|]. split; [exact K6|]. split; [exact K9|].
-  apply byteprefix_plain; [exact K7|unfold rowis; rewrite K8; vm_compute; reflexivity].
-Qed.
-
-Lemma TM3_move : Kmove TM3.
-Proof.
-  intros s g par x target pre post t2 HT HK Hkp Hlt Hne (to & Hto & Htn) Hprev g2 HT2 Hk2p Hk2t Hk2o Hpf m mo2 Hm2 Hop2.
-  destruct (pframe_inv _ _ _ _ Hpf Hm2) as (mo & Hm & (E1 & _)).
-  assert (Hop : o_opcode mo = aml_pOpMethod) by congruence.
-  destruct (HK m mo Hm Hop) as (a0 & a1 & rest & a0o & a1o & v & K1 & K2 & K3 & K4 & K5 & K6 & K7 & K8 & K9).
-  assert (Ha0t : a0 <> target) by (intros ->; assert (a0o = to) by congruence; subst; contradiction).
-  assert (Ha0p : a0 <> par) by (intros ->; rewrite K5 in Hkp; destruct pre; discriminate).
-  destruct (proj2 Hpf _ _ K2) as (a0o2 & K2' & (F1 & F2 & _)).
-  destruct (proj2 Hpf _ _ K6) as (a1o2 & K6' & (G1 & G2 & _ & _ & _ & _ & _ & G8)).
-  assert (Hkm : exists rest', kids g2 m = a0 :: a1 :: rest').
-  { destruct (N.eq_dec m par) as [->|Hmp].
-    - rewrite Hk2p. rewrite K1 in Hkp. destruct pre as [|p0 [|p1 pre'']].
-      + exfalso. destruct Hprev as [(pre' & E)|(pre' & P & l1 & E & _)]; destruct pre'; discriminate.
-      + exfalso. cbn [app] in Hkp. injection Hkp as E0 E1' _. subst p0 x.
-        destruct Hprev as [(pre' & E)|(pre' & P & l1 & E & HkP)].
-        * destruct pre' as [|q pre']; [injection E as E; apply Ha0t; exact E|destruct pre'; discriminate].
-        * destruct pre' as [|q pre']; [injection E as E; subst P; rewrite K5 in HkP; destruct l1; discriminate|destruct pre'; discriminate].
-      + cbn [app] in Hkp. injection Hkp as E0 E1' _. subst p0 p1. cbn [app]. eexists. reflexivity.
-    - destruct (N.eq_dec m target) as [->|Hmt].
-      + rewrite Hk2t, K1. cbn [app]. eexists. reflexivity.
-      + rewrite (Hk2o m Hmp Hmt). exists rest. exact K1. }
-  destruct Hkm as (rest' & Hkm).
-  exists a0, a1, rest', a0o2, a1o2, v. split; [exact Hkm|]. split; [exact K2'|]. split; [congruence|]. split; [congruence|].
-  split; [rewrite (Hk2o a0 Ha0p Ha0t); exact K5|]. split; [exact K6'|]. split; [congruence|]. split; [congruence|congruence].
-Qed.
-
-Lemma TM3_upd : Kupd TM3.
-Proof.
-  intros t g p o f HR HK Ho Hop Hnm Hnn m mo2 Hm2 Hop2.
-  rewrite get_tset in Hm2. destruct (N.eqb_spec m p) as [->|Hmp].
-  { rewrite Ho in Hm2. cbn [option_map] in Hm2. inversion Hm2; subst mo2. contradiction. }
-  destruct (HK m mo2 Hm2 Hop2) as (a0 & a1 & rest & a0o & a1o & v & K1 & K2 & K3 & K4 & K5 & K6 & K7 & K8 & K9).
-  assert (Ha0 : a0 <> p) by (intros ->; assert (a0o = o) by congruence; subst; rewrite Hop in K3; vm_compute in K3; discriminate).
-  assert (Ha1 : a1 <> p) by (intros ->; assert (a1o = o) by congruence; subst; rewrite Hop in K7; vm_compute in K7; discriminate).
-  exists a0, a1, rest, a0o, a1o, v. rewrite !get_tset.
-  apply N.eqb_neq in Ha0. apply N.eqb_neq in Ha1. rewrite Ha0, Ha1. repeat (split; [assumption|]). assumption.
-Qed.
-
-(** the last two passes keep the concrete Method typing *)
 Theorem resolveMethodCalls_keeps_TM3 : forall fuel s g,
   R (p_tree s) g -> info_valid (p_tree s) -> pool_ok (p_tables s) (p_tree s) -> typed (p_tree s) ->
   glive g 0 -> groot g 0 -> TM3 (p_tree s) g ->
@@ -106,394 +48,6 @@ Proof.
   split; [eapply typed_pframe; eauto|]. split; [apply (reloc_glive _ _ _ 0 Hrel); exact H0|]. split; [apply Hroots; exact Hroot|exact E].
 Qed.
 
-(** ---- TM3 through the resolve loop: the abstract invariant [KS3] = [KS] /\ [TM3] ---- *)
-Definition KS3 (s : pstate) (g : ghost) : Prop := KS s g /\ TM3 (p_tree s) g.
-
-Lemma np_not_named (o : Obj) op fl af : o_infoIndex o = npIdx -> opInfo (o_infoIndex o) = Some (op, fl, af) -> hasFlag fl aml_pOpFlagNamed = false.
-Proof. intros E H. rewrite E in H. vm_compute in H. injection H as _ <- _. reflexivity. Qed.
-Lemma bp_not_named (o : Obj) op fl af : o_infoIndex o = bpIdx -> opInfo (o_infoIndex o) = Some (op, fl, af) -> hasFlag fl aml_pOpFlagNamed = false.
-Proof. intros E H. rewrite E in H. vm_compute in H. injection H as _ <- _. reflexivity. Qed.
-
-(** a rearrangement that keeps payloads (but for values outside the flags arguments) and the child lists of Methods and of their name paths *)
-Lemma TM3_step (t t2 : T) g g2 :
-  TM3 t g ->
-  (forall i o2, tget t2 i = Some o2 -> exists o, tget t i = Some o /\ sameobj o o2) ->
-  (forall i o, tget t i = Some o -> exists o2, tget t2 i = Some o2 /\ sameobj o o2) ->
-  (forall m mo a0 a1 rest a1o, tget t m = Some mo -> o_opcode mo = aml_pOpMethod -> kids g m = a0 :: a1 :: rest -> kids g a0 = [] ->
-     tget t a1 = Some a1o ->
-     (exists rest', kids g2 m = a0 :: a1 :: rest') /\ kids g2 a0 = [] /\ (forall a1o2, tget t2 a1 = Some a1o2 -> o_value a1o2 = o_value a1o)) ->
-  TM3 t2 g2.
-Proof.
-  intros H Hb Hf Hm m mo2 Hg2 Hop2. destruct (Hb m mo2 Hg2) as (mo & Hg & (E1 & _)).
-  assert (Hop : o_opcode mo = aml_pOpMethod) by congruence.
-  destruct (H m mo Hg Hop) as (a0 & a1 & rest & a0o & a1o & v & K1 & K2 & K3 & K4 & K5 & K6 & K7 & K8 & K9).
-  destruct (Hm m mo a0 a1 rest a1o Hg Hop K1 K5 K6) as ((rest' & K1') & K5' & Hv).
-  destruct (Hf a0 a0o K2) as (a0o2 & K2' & (F1 & F2 & _)). destruct (Hf a1 a1o K6) as (a1o2 & K6' & (G1 & G2 & _)).
-  exists a0, a1, rest', a0o2, a1o2, v. split; [exact K1'|]. split; [exact K2'|]. split; [congruence|]. split; [congruence|]. split; [exact K5'|].
-  split; [exact K6'|]. split; [congruence|]. split; [congruence|]. rewrite (Hv a1o2 K6'). exact K9.
-Qed.
-
-Lemma KS3_counters s g a b c : KS3 s g -> KS3 (with_counters s a b c) g.
-Proof. intros H. exact H. Qed.
-
-Lemma KS3_move s g c m tg (t2 : T) g2 : TI s g -> KS3 s g -> In m (kids g c) -> is_sb s c -> is_sb s tg ->
-  pframe (p_tree s) t2 -> shape_eq g g2 ->
-  (forall q, kids g2 q = (if q =? c then remove1 m (kids g c) else kids g q) ++ (if q =? tg then [m] else [])) ->
-  KS3 (with_tree s t2) g2.
-Proof.
-  intros HT (HKS & HTM) Hin Hc Htg Hpf S2 Hk. split; [apply (KS_move s g c m tg t2 g2 HT HKS Hin Hc Htg Hpf S2 Hk)|].
-  cbn [p_tree with_tree]. eapply TM3_step; [exact HTM|apply pframe_back; exact Hpf|apply pframe_fwd; exact Hpf|].
-  intros m' mo a0 a1 rest a1o Hm' Hop Hkm Hk0 Ha1.
-  assert (Hsame : forall q qo, tget (p_tree s) q = Some qo -> o_opcode qo <> aml_pOpIntScopeBlock -> kids g2 q = kids g q).
-  { intros q qo Hq Hne. rewrite Hk.
-    destruct (N.eqb_spec q c) as [->|_]; [exfalso; destruct Hc as (o' & Ho' & E); assert (o' = qo) by congruence; subst; contradiction|].
-    destruct (N.eqb_spec q tg) as [->|_]; [exfalso; destruct Htg as (o' & Ho' & E); assert (o' = qo) by congruence; subst; contradiction|].
-    apply app_nil_r. }
-  destruct (HTM m' mo Hm' Hop) as (b0 & b1 & r & b0o & b1o & w & K1 & K2 & K3 & _).
-  rewrite Hkm in K1. injection K1 as <- <- <-.
-  split; [exists rest; rewrite (Hsame m' mo Hm'); [exact Hkm|rewrite Hop; discriminate]|].
-  split; [rewrite (Hsame a0 b0o K2); [exact Hk0|rewrite K3; discriminate]|].
-  intros a1o2 Ha12. destruct (proj2 Hpf _ _ Ha1) as (o' & Ho' & E). assert (o' = a1o2) by congruence. subst.
-  destruct E as (_ & _ & _ & _ & _ & _ & _ & E8). exact E8.
-Qed.
-
-Lemma KS3_free s g y (t' : T) g' : TI s g -> KS3 s g -> glive g y -> kids g y = [] -> scoped s g y ->
-  fframe y (p_tree s) t' -> (forall p, kids g' p = remove1 y (kids g p)) ->
-  (forall z, glive g' z <-> glive g z /\ z <> y) -> (forall o', tget t' y = Some o' -> o_opcode o' = opFreed) ->
-  KS3 (with_tree s t') g'.
-Proof.
-  intros HT (HKS & HTM) Hly Hky Hsc Hff Hk Hl' Hfr. split; [apply (KS_free s g y t' g' HT HKS Hly Hky Hsc Hff Hk Hl' Hfr)|].
-  pose proof (ti_R _ _ HT) as HR. cbn [p_tree with_tree]. intros m mo2 Hg2 Hop2.
-  assert (Hmy : m <> y) by (intros ->; rewrite (Hfr _ Hg2) in Hop2; discriminate).
-  destruct (fframe_back _ _ _ Hff m mo2 Hmy Hg2) as (mo & Hg & (E1 & _)).
-  assert (Hop : o_opcode mo = aml_pOpMethod) by congruence.
-  destruct (HTM m mo Hg Hop) as (a0 & a1 & rest & a0o & a1o & v & K1 & K2 & K3 & K4 & K5 & K6 & K7 & K8 & K9).
-  assert (Hny : forall a ao, In a (kids g m) -> tget (p_tree s) a = Some ao -> o_opcode ao <> aml_pOpScope -> y <> a).
-  { intros a ao Hin Ha Hns ->. destruct Hsc as [(yo & Hyo & Eyo)|(d & dobj & Hind & Hd & Ed)].
-    - assert (yo = ao) by congruence. subst. contradiction.
-    - assert (d = m) by (eapply (R_parent_unique _ _ HR); eauto). subst d. assert (dobj = mo) by congruence. subst.
-      rewrite Hop in Ed. discriminate. }
-  assert (H0 : y <> a0) by (apply (Hny a0 a0o); [rewrite K1; left; reflexivity|exact K2|rewrite K3; discriminate]).
-  assert (H1 : y <> a1) by (apply (Hny a1 a1o); [rewrite K1; right; left; reflexivity|exact K6|rewrite K7; discriminate]).
-  destruct (proj2 Hff _ _ K2) as (a0o2 & K2' & _ & F0). destruct (proj2 Hff _ _ K6) as (a1o2 & K6' & V1 & F1).
-  destruct (F0 (not_eq_sym H0)) as (A1 & A2 & _). destruct (F1 (not_eq_sym H1)) as (B1 & B2 & _).
-  exists a0, a1, (remove1 y rest), a0o2, a1o2, v. split; [rewrite Hk, K1; apply remove1_two; auto|].
-  split; [exact K2'|]. split; [congruence|]. split; [congruence|]. split; [rewrite Hk, K5; reflexivity|].
-  split; [exact K6'|]. split; [congruence|]. split; [congruence|]. rewrite V1. exact K9.
-Qed.
-
-Lemma KS3_reloc s g x xo op fl af par tg (t2 : T) g2 v :
-  TI s g -> KS3 s g -> tget (p_tree s) x = Some xo -> opInfo (o_infoIndex xo) = Some (op, fl, af) ->
-  hasFlag fl aml_pOpFlagNamed = true -> o_opcode xo <> aml_pOpIntScopeBlock -> o_tableHandle xo = p_handle s ->
-  In x (kids g par) -> is_sb s tg -> glive g tg -> kids g x <> [] ->
-  pframe (p_tree s) t2 -> shape_eq g g2 -> roots_iff g g2 ->
-  (forall q, kids g2 q = (if q =? par then remove1 x (kids g par) else kids g q) ++ (if q =? tg then [x] else [])) ->
-  KS3 (with_tree s (tset t2 (hd InvalidIndex (kids g x)) (set_value v))) g2.
-Proof.
-  intros HT (HKS & HTM) Hxo Erow Enamed Hnsb Hh Hin Htg Hltg Hkx Hpf S2 R2 Hk.
-  split; [apply (KS_reloc s g x xo op fl af par tg t2 g2 v HT HKS Hxo Erow Enamed Hnsb Hh Hin Htg Hltg Hkx Hpf S2 R2 Hk)|].
-  pose proof (ti_R _ _ HT) as HR.
-  set (n := hd InvalidIndex (kids g x)).
-  assert (Hn_in : In n (kids g x)) by (unfold n; destruct (kids g x); [contradiction|left; reflexivity]).
-  assert (Hback : forall i o2, tget (tset t2 n (set_value v)) i = Some o2 -> exists o, tget (p_tree s) i = Some o /\ sameobj o o2).
-  { intros i o2 Hg. rewrite get_tset in Hg. destruct (N.eqb_spec i n) as [->|Hne].
-    - destruct (tget t2 n) as [o'|] eqn:E2; [|discriminate]. cbn [option_map] in Hg. inversion Hg; subst o2.
-      destruct (pframe_back _ _ Hpf n o' E2) as (o & Ho & So). exists o. split; [exact Ho|exact So].
-    - apply (pframe_back _ _ Hpf i o2 Hg). }
-  assert (Hfwd : forall i o, tget (p_tree s) i = Some o -> exists o2, tget (tset t2 n (set_value v)) i = Some o2 /\ sameobj o o2 /\
-                                                              (i <> n -> o_value o2 = o_value o)).
-  { intros i o Ho. destruct (proj2 Hpf _ _ Ho) as (o' & Ho' & E). rewrite get_tset, Ho'. cbn [option_map].
-    destruct (N.eqb_spec i n) as [->|Hne].
-    - eexists. split; [reflexivity|]. split; [apply (pay_same _ _ E)|intros F; contradiction].
-    - exists o'. split; [reflexivity|]. split; [apply pay_same; exact E|]. intros _. destruct E as (_ & _ & _ & _ & _ & _ & _ & E8). exact E8. }
-  cbn [p_tree with_tree]. eapply TM3_step; [exact HTM|exact Hback| |].
-  - intros i o Ho. destruct (Hfwd i o Ho) as (o2 & Ho2 & So & _). eauto.
-  - intros m mo a0 a1 rest a1o Hm Hop Hkm Hk0 Ha1.
-    destruct (HTM m mo Hm Hop) as (b0 & b1 & r & b0o & b1o & w & K1 & K2 & K3 & K4 & K5 & K6 & K7 & K8 & K9).
-    rewrite Hkm in K1. injection K1 as <- <- <-.
-    assert (Hx0 : x <> a0).
-    { intros ->. assert (b0o = xo) by congruence. subst. rewrite (np_not_named _ _ _ _ K4 Erow) in Enamed. discriminate. }
-    assert (Hx1 : x <> a1).
-    { intros ->. assert (b1o = xo) by congruence. subst. rewrite (bp_not_named _ _ _ _ K8 Erow) in Enamed. discriminate. }
-    assert (Emt : (m =? tg) = false) by (apply N.eqb_neq; intros ->; exact (is_sb_not_method s tg mo Htg Hm Hop)).
-    split; [|split].
-    + rewrite Hk, Emt, app_nil_r. destruct (N.eqb_spec m par) as [->|_]; [|exists rest; exact Hkm].
-      rewrite Hkm. rewrite remove1_two; auto. eexists. reflexivity.
-    + rewrite Hk.
-      assert (E0p : (a0 =? par) = false) by (apply N.eqb_neq; intros ->; rewrite Hk0 in Hin; contradiction).
-      assert (E0t : (a0 =? tg) = false).
-      { apply N.eqb_neq. intros ->. destruct Htg as (o' & Ho' & E). assert (o' = b0o) by congruence. subst. rewrite K3 in E. discriminate. }
-      rewrite E0p, E0t, app_nil_r. exact Hk0.
-    + intros a1o2 Ha12. destruct (Hfwd a1 a1o Ha1) as (o2 & Ho2 & _ & Hv). assert (o2 = a1o2) by congruence. subst. apply Hv.
-      intros E.
-      assert (Exm : x = m).
-      { eapply (R_parent_unique _ _ HR); [exact Hn_in|]. rewrite <- E, Hkm. right. left. reflexivity. }
-      assert (E' : a1 = a0) by (rewrite E; unfold n; rewrite Exm, Hkm; reflexivity).
-      assert (Hlmo : o_opcode mo <> opFreed) by (rewrite Hop; discriminate).
-      destruct (R_kids _ _ HR _ _ Hm Hlmo) as (_ & _ & _ & Hnd). rewrite Hkm in Hnd.
-      apply NoDup_cons_iff in Hnd. destruct Hnd as (Hni & _). apply Hni. left. exact E'.
-Qed.
-
-Lemma KS3_loop : forall wf fuel s g, MI KS3 NoX s g ->
-  wp True (resolve_loop fuel wf) s (fun _ s' => exists g', MI KS3 NoX s' g').
-Proof. exact (resolve_loop_MI KS3 KS3_counters KS3_move KS3_free KS3_reloc). Qed.
-
-(** ---- TM3 through connectNamedObjArgs: the abstract invariant [SH3] = [SH] /\ [TM3] ---- *)
-Definition SH3 (s : pstate) (g : ghost) : Prop := SH s g /\ TM3 (p_tree s) g.
-
-Lemma SH3_setname s g a nm : TI s g -> SH3 s g -> tgt_ok s g a -> SH3 (with_tree s (tset (p_tree s) a (set_name nm))) g.
-Proof.
-  intros HT (HS & HTM) Hok. split; [apply SH_setname; assumption|].
-  cbn [p_tree with_tree]. set (t2 := tset (p_tree s) a (set_name nm)).
-  assert (Hfwd : forall i o, tget (p_tree s) i = Some o -> exists o2, tget t2 i = Some o2 /\ sameobj o o2 /\ o_value o2 = o_value o).
-  { intros i o Ho. unfold t2. rewrite get_tset, Ho. cbn [option_map]. destruct (i =? a); eexists; (split; [reflexivity|]); split; try reflexivity; repeat split. }
-  assert (Hback : forall i o2, tget t2 i = Some o2 -> exists o, tget (p_tree s) i = Some o /\ sameobj o o2).
-  { intros i o2 Hg. unfold t2 in Hg. rewrite get_tset in Hg. destruct (tget (p_tree s) i) as [o|] eqn:E; [|destruct (i =? a); discriminate].
-    exists o. split; [reflexivity|]. destruct (i =? a); cbn [option_map] in Hg; inversion Hg; subst o2; repeat split. }
-  eapply TM3_step; [exact HTM|exact Hback| |].
-  - intros i o Ho. destruct (Hfwd i o Ho) as (o2 & Ho2 & So & _). eauto.
-  - intros m mo a0 a1 rest a1o Hm Hop Hkm Hk0 Ha1. split; [exists rest; exact Hkm|]. split; [exact Hk0|].
-    intros a1o2 Ha12. destruct (Hfwd a1 a1o Ha1) as (o2 & Ho2 & _ & Hv). assert (o2 = a1o2) by congruence. subst. exact Hv.
-Qed.
-
-Lemma SH3_attach s g parent target sib l1 l2 (t2 : T) g2 : TI s g -> SH3 s g ->
-  kids g parent = l1 ++ target :: sib :: l2 -> tgt_ok s g target ->
-  pframe (p_tree s) t2 -> shape_eq g g2 -> roots_iff g g2 ->
-  (forall q, kids g2 q = (if q =? parent then remove1 sib (kids g parent) else kids g q) ++ (if q =? target then [sib] else [])) ->
-  SH3 (with_tree s t2) g2.
-Proof.
-  intros HT (HS & HTM) Hkp Hok Hpf S2 R2 Hk. split; [eapply SH_attach; eauto|].
-  destruct Hok as (ao & op & fl & af & Hao & Erow & En & Eh & Eo & Ek).
-  pose proof (ti_R _ _ HT) as HR.
-  assert (Hin_t : In target (kids g parent)) by (rewrite Hkp; apply in_or_app; right; left; reflexivity).
-  destruct (TI_live_get _ _ _ HT (proj1 ((R_gwf _ _ HR) _ _ Hin_t))) as (po & Hpo & Hlpo).
-  destruct (R_kids _ _ HR _ _ Hpo Hlpo) as (_ & _ & _ & Hnd). rewrite Hkp in Hnd.
-  cbn [p_tree with_tree]. eapply TM3_step; [exact HTM|apply pframe_back; exact Hpf|apply pframe_fwd; exact Hpf|].
-  intros m mo a0 a1 rest a1o Hm Hop Hkm Hk0 Ha1.
-  destruct (HTM m mo Hm Hop) as (b0 & b1 & r & b0o & b1o & w & K1 & K2 & K3 & K4 & K5 & K6 & K7 & K8 & K9).
-  rewrite Hkm in K1. injection K1 as <- <- <-.
-  assert (Ht0 : target <> a0) by (intros ->; assert (b0o = ao) by congruence; subst; rewrite (np_not_named _ _ _ _ K4 Erow) in En; discriminate).
-  assert (Ht1 : target <> a1) by (intros ->; assert (b1o = ao) by congruence; subst; rewrite (bp_not_named _ _ _ _ K8 Erow) in En; discriminate).
-  split; [|split].
-  - rewrite Hk. destruct (N.eqb_spec m parent) as [->|Hmp].
-    + assert (Hs0 : sib <> a0 /\ sib <> a1).
-      { rewrite Hkp in Hkm. destruct l1 as [|b l1']; cbn [app] in Hkm.
-        - injection Hkm as E0 _ _. exfalso. apply Ht0. exact E0.
-        - injection Hkm as E0 Hkm'. subst b. cbn [app] in Hnd. apply NoDup_cons_iff in Hnd. destruct Hnd as (Hn0 & Hnd').
-          split; [intros E; apply Hn0; rewrite <- E; apply in_or_app; right; right; left; reflexivity|].
-          destruct l1' as [|b' l1'']; cbn [app] in Hkm'.
-          + injection Hkm' as E1 _. exfalso. apply Ht1. exact E1.
-          + injection Hkm' as E1 _. subst b'. cbn [app] in Hnd'. apply NoDup_cons_iff in Hnd'. destruct Hnd' as (F & _).
-            intros E. apply F. rewrite <- E. apply in_or_app. right. right. left. reflexivity. }
-      destruct Hs0 as (S0 & S1). rewrite Hkm, (remove1_two sib a0 a1 rest S0 S1).
-      destruct (parent =? target); cbn [app]; eexists; reflexivity.
-    + destruct (N.eqb_spec m target) as [->|_]; [rewrite Hkm; cbn [app]; eexists; reflexivity|rewrite app_nil_r; exists rest; exact Hkm].
-  - rewrite Hk.
-    assert (E0p : (a0 =? parent) = false) by (apply N.eqb_neq; intros ->; rewrite Hk0 in Hin_t; contradiction).
-    assert (E0t : (a0 =? target) = false) by (apply N.eqb_neq; intros E; apply Ht0; symmetry; exact E).
-    rewrite E0p, E0t, app_nil_r. exact Hk0.
-  - intros a1o2 Ha12. destruct (proj2 Hpf _ _ Ha1) as (o' & Ho' & E). assert (o' = a1o2) by congruence. subst.
-    destruct E as (_ & _ & _ & _ & _ & _ & _ & E8). exact E8.
-Qed.
-
-Lemma SH3_conn : forall fuel, CN_spec2 SH3 fuel.
-Proof. intros fuel. exact (proj1 (conn_all2 SH3 SH3_setname SH3_attach fuel)). Qed.
-
-(** ---- TM3 through the first pass: the invariant [LI3] = [LI] /\ [TM3] of the object boundaries of parseObjectList ---- *)
-Definition LI3 (X : N -> Prop) (s : pstate) (g : ghost) : Prop := LI X s g /\ TM3 (p_tree s) g.
-
-Lemma rowis_np (o : Obj) : rowis aml_pOpIntNamePath o -> o_infoIndex o = npIdx.
-Proof. unfold rowis. intros H. assert (E : opcodeTableIndex aml_pOpIntNamePath true = Some npIdx) by (vm_compute; reflexivity). congruence. Qed.
-Lemma rowis_bp (o : Obj) : rowis aml_pOpBytePrefix o -> o_infoIndex o = bpIdx.
-Proof. unfold rowis. intros H. assert (E : opcodeTableIndex aml_pOpBytePrefix true = Some bpIdx) by (vm_compute; reflexivity). congruence. Qed.
-
-Lemma LI3_next_holds X s g top rest s' g' :
-  FI s g -> LI3 X s g -> p_scopeStack s = top :: rest -> FI s' g' -> gext g g' ->
-  Fw NoP (eq top) s g s' g' -> SSBx s s' -> p_handle s' = p_handle s ->
-  (exists xs, newobjs g s' xs /\ forall x, xs = Some x -> ~ glive g x /\ xdesc s g s' g' top x) ->
-  LI3 X s' g'.
-Proof.
-  intros H (HL & HTM) Est H' G F Hss Hh Hnx. split; [exact (LI_next_holds X s g top rest s' g' H HL Est H' G F Hss Hh Hnx)|].
-  unfold TM3.
-  destruct HL as (_ & _ & _ & Hssb & _). destruct F as [K Fk0]. destruct Hnx as (xs & Hnew & Hx).
-  pose proof (fi_R _ _ H) as HR. pose proof (R_gwf _ _ HR) as Hwf.
-  assert (Htop_sb : is_sb s top) by (rewrite Est in Hssb; inversion Hssb; auto).
-  assert (Hkeepk : forall y yo, glive g y -> tget (p_tree s) y = Some yo -> o_opcode yo <> aml_pOpIntScopeBlock -> kids g' y = kids g y).
-  { intros y yo Hy Hyo Hne. destruct (Fk0 y Hy (fun F => F)) as (_ & Hex). apply Hex. intros <-.
-    destruct Htop_sb as (o & Ho & E). assert (o = yo) by congruence. subst. contradiction. }
-  intros m mo' Hm' Hop'. assert (Hlm' : o_opcode mo' <> opFreed) by (rewrite Hop'; discriminate).
-  destruct (glive_dec g m) as [Hlm|Hnm].
-  - destruct (keepw_back NoP s g s' m mo' H K Hlm Hm') as (mo & Hm & (E1 & _) & _).
-    assert (Hop : o_opcode mo = aml_pOpMethod) by congruence.
-    destruct (HTM m mo Hm Hop) as (a0 & a1 & rest0 & a0o & a1o & v & K1 & K2 & K3 & K4 & K5 & K6 & K7 & K8 & K9).
-    assert (Hl0 : glive g a0) by (apply (Hwf m a0); rewrite K1; left; reflexivity).
-    assert (Hl1 : glive g a1) by (apply (Hwf m a1); rewrite K1; right; left; reflexivity).
-    destruct (keepw_sameobj NoP s g s' a0 a0o K Hl0 K2) as (a0o' & K2' & (S1 & S2 & _) & _).
-    destruct (keepw_sameobj NoP s g s' a1 a1o K Hl1 K6) as (a1o' & K6' & (T1 & T2 & _) & _ & V1).
-    exists a0, a1, rest0, a0o', a1o', v. split; [rewrite (Hkeepk m mo Hlm Hm); [exact K1|rewrite Hop; discriminate]|].
-    split; [exact K2'|]. split; [congruence|]. split; [congruence|].
-    split; [rewrite (Hkeepk a0 a0o Hl0 K2); [exact K5|rewrite K3; discriminate]|].
-    split; [exact K6'|]. split; [congruence|]. split; [congruence|]. rewrite V1; [exact K9|intros []].
-  - destruct (Hnew m mo' Hm' Hlm' Hnm) as [E|(Hb & _)]; [|exfalso; apply Hb; left; exact Hop'].
-    destruct (Hx m E) as (_ & xo & Hxo & _ & Hrow & _ & _ & Hshape). assert (xo = mo') by congruence. subst xo.
-    destruct method_row as (Hmi & Hmrow & _). destruct method_shape as (Hsim & Hot).
-    unfold rowis in Hrow. rewrite Hop', Hmi in Hrow. injection Hrow as Hrow.
-    destruct (Hshape (or_introl Hop') aml_pOpMethod 33 methodAF) as (objs & Hk & Hf2 & _); [rewrite <- Hrow; exact Hmrow|exact Hsim|vm_compute; reflexivity|].
-    rewrite Hot in Hf2. destruct (Forall2_inv2 _ _ _ _ _ Hf2) as (a0 & a1 & l1' & Eobjs & A0 & A1 & _). rewrite Eobjs in Hk.
-    destruct A0 as (a0o & Ha0 & N0 & _). destruct (N0 eq_refl) as (Kn0 & Eop0 & Er0 & _).
-    destruct A1 as (a1o & Ha1 & _ & B1 & _). destruct (B1 eq_refl) as (_ & Eop1 & Er1 & v & Ev1).
-    exists a0, a1, l1', a0o, a1o, v. split; [exact Hk|]. split; [exact Ha0|]. split; [exact Eop0|]. split; [apply rowis_np; exact Er0|].
-    split; [exact Kn0|]. split; [exact Ha1|]. split; [exact Eop1|]. split; [apply rowis_bp; exact Er1|exact Ev1].
-Qed.
-
-Lemma LI3_stable_holds X s s' g : LI3 X s g -> p_tree s' = p_tree s -> p_handle s' = p_handle s ->
-  (forall y, In y (p_scopeStack s') -> In y (p_scopeStack s)) -> LI3 X s' g.
-Proof. intros (HL & HTM) Et Eh Hst. split; [eapply LI_stable_holds; eauto|rewrite Et; exact HTM]. Qed.
-
-(** ---- everything but parseDeferredBlocks: the load loop modulo ONE lemma about that pass ---- *)
-(** [DEF3]: the missing lemma - a successful parseDeferredBlocks from the root keeps [TM3] (for the Methods that were there it follows
-    from the frame of the walk; for Methods created inside a deferred block the block proof does not yet carry enough) *)
-Definition DEF3 : Prop := forall f4 pf s g s1 g1,
-  WI s g -> parseDeferredBlocks f4 pf 0 s = Ok (ROk, s1) -> WI s1 g1 -> wstep s g s1 g1 -> TM NoX s1 g1 ->
-  TM3 (p_tree s) g -> TM3 (p_tree s1) g1.
-
-(** [DEF3new]: the part of [DEF3] that is open - the Methods CREATED by a successful parseDeferredBlocks are typed.  For the Methods that
-    were there before, [DEF3] follows from the frame of the walk ([ws_pre]: two leading children that are not pending stay in front;
-    [ws_nil]: a childless object that is not pending stays childless; [ws_keep]: payloads; the number comes back from [TM NoX]). *)
-Definition DEF3new : Prop := forall f4 pf s g s1 g1,
-  WI s g -> parseDeferredBlocks f4 pf 0 s = Ok (ROk, s1) -> WI s1 g1 -> wstep s g s1 g1 -> TM NoX s1 g1 ->
-  TM3 (p_tree s) g ->
-  forall m mo, tget (p_tree s1) m = Some mo -> o_opcode mo = aml_pOpMethod -> ~ glive g m -> mtyped3 (p_tree s1) g1 m.
-
-Lemma isflag_np s a o : tget (p_tree s) a = Some o -> o_infoIndex o = npIdx -> isflag s a = false.
-Proof. intros Ho E. unfold isflag. rewrite Ho, E. vm_compute. reflexivity. Qed.
-Lemma isflag_bp s a o : tget (p_tree s) a = Some o -> o_infoIndex o = bpIdx -> isflag s a = false.
-Proof. intros Ho E. unfold isflag. rewrite Ho, E. vm_compute. reflexivity. Qed.
-
-Lemma DEF3_of_new : DEF3new -> DEF3.
-Proof.
-  intros HN f4 pf s g s1 g1 H E H1 S1 T1 HTM m mo' Hm' Hop'.
-  destruct (glive_dec g m) as [Hlm|Hnm]; [|exact (HN f4 pf s g s1 g1 H E H1 S1 T1 HTM m mo' Hm' Hop' Hnm)].
-  pose proof (R_gwf _ _ (fi_R _ _ H)) as Hwf.
-  destruct (FI_live_get _ _ _ H Hlm) as (mo & Hm & _).
-  destruct (ws_keep _ _ _ _ S1 m mo Hlm Hm) as (mo2 & Hm2 & (E1 & _) & _). assert (mo2 = mo') by congruence. subst mo2.
-  assert (Hop : o_opcode mo = aml_pOpMethod) by congruence.
-  destruct (HTM m mo Hm Hop) as (a0 & a1 & rest & a0o & a1o & v & K1 & K2 & K3 & K4 & K5 & K6 & K7 & K8 & K9).
-  assert (Hl0 : glive g a0) by (apply (Hwf m a0); rewrite K1; left; reflexivity).
-  assert (Hl1 : glive g a1) by (apply (Hwf m a1); rewrite K1; right; left; reflexivity).
-  pose proof (isflag_np s a0 a0o K2 K4) as Hf0. pose proof (isflag_bp s a1 a1o K6 K8) as Hf1.
-  destruct (ws_pre _ _ _ _ S1 m a0 a1 rest Hlm Hf0 Hf1 K1) as (rest' & K1').
-  destruct (ws_keep _ _ _ _ S1 a0 a0o Hl0 K2) as (a0o' & K2' & (A1 & A2 & _) & _).
-  destruct (ws_keep _ _ _ _ S1 a1 a1o Hl1 K6) as (a1o' & K6' & (B1 & B2 & _) & _).
-  (* the number: from the typing the walk re-establishes *)
-  destruct (T1 m mo' Hm' Hop' (fun F => F)) as (c0 & c1 & r & c0o & c1o & w & C1 & _ & _ & C4 & C5 & _).
-  rewrite K1' in C1. injection C1 as <- <- <-. assert (c1o = a1o') by congruence. subst c1o.
-  exists a0, a1, rest', a0o', a1o', w. split; [exact K1'|]. split; [exact K2'|]. split; [congruence|]. split; [congruence|].
-  split; [apply (ws_nil _ _ _ _ S1 a0 Hl0 Hf0 K5)|]. split; [exact K6'|]. split; [congruence|]. split; [congruence|exact C5].
-Qed.
-
-Definition K3 : T -> ghost -> Prop := fun t g => KR t g /\ TM3 t g.
-
-Lemma K3_move : Kmove K3.
-Proof.
-  intros s g par x target pre post t2 HT (H1 & H2) Hk Hl Hne Htg Hp g2 HT2 A B C Hpf.
-  split; [apply (KR_move s g par x target pre post t2 HT H1 Hk Hl Hne Htg Hp HT2 A B C Hpf)
-         |apply (TM3_move s g par x target pre post t2 HT H2 Hk Hl Hne Htg Hp HT2 A B C Hpf)].
-Qed.
-Lemma K3_upd : Kupd K3.
-Proof.
-  intros t g p o f HR (H1 & H2) Ho Hop A B. split; [apply (KR_upd t g p o f HR H1 Ho Hop A B)|apply (TM3_upd t g p o f HR H2 Ho Hop A B)].
-Qed.
-
-Theorem parseAML_body_post3 : DEF3new -> forall tree g earlier handle data fuel,
-  R tree g -> info_valid tree -> glive g 0 -> groot g 0 ->
-  (exists o, tget tree 0 = Some o /\ o_opcode o = aml_pOpIntScopeBlock) ->
-  TM3 tree g -> typed tree -> pool_ok earlier tree ->
-  (forall i o, tget tree i = Some o -> o_tableHandle o <> handle) ->
-  image_small data ->
-  (let L := N.of_nat (length (t_pool tree)) + 4 * N.of_nat (length data) + 2 in
-   L + L * (8 * N.of_nat (length data) + 3) + 4 <= InvalidIndex) ->
-  match parseAML_body fuel (init_state tree earlier handle data) with
-  | Ok (b, s') => tpost K3 b s'
-  | Panic => False
-  | OutOfFuel => True
-  end.
-Proof.
-  intros HDn tree g earlier handle data fuel HR Hi H0 Hr0 Hsb HTM. pose proof (DEF3_of_new HDn) as HD.
-  apply (parseAML_body_post K3 K3_move K3_upd
-           (fun f4 pf s g s1 g1 H E H1 S1 T1 HK => conj (KR_walk f4 pf s g s1 g1 H E H1 S1 T1 (proj1 HK)) (HD f4 pf s g s1 g1 H E H1 S1 T1 (proj2 HK)))
-           KS3 (fun s g H => proj1 H) KS3_loop
-           (fun s g HM => conj (mi_sb0 _ _ _ _ HM) (proj2 (mi_K _ _ _ _ HM)))
-           SH3 (fun s g H => proj1 H) SH3_conn
-           (fun s g a b c HS => conj (KS_counters s g a b c (conj (proj1 (proj2 (proj2 (proj2 (proj2 (proj1 HS)))))) (proj2 (proj2 (proj2 (proj2 (proj2 (proj1 HS)))))))) (proj2 HS))
-           LI3 TM3 (fun X s g H => proj1 H) (fun X s g H HP => conj H HP) LI3_next_holds LI3_stable_holds
-           (fun X s g HL HN => conj (SH_of_LI X s g (proj1 HL) HN) (proj2 HL))
-           tree g earlier handle data fuel HR Hi H0 Hr0 Hsb (TM3_TM2 _ _ HTM) HTM).
-Qed.
-
-(** the invariant of the load loop with the concrete Method typing *)
-Definition INV3 (tree : T) (g : ghost) (earlier : list (list N)) (h : N) : Prop :=
-  R tree g /\ info_valid tree /\ glive g 0 /\ groot g 0 /\
-  (exists o, tget tree 0 = Some o /\ o_opcode o = aml_pOpIntScopeBlock) /\
-  TM3 tree g /\ typed tree /\ pool_ok earlier tree /\
-  (forall i o, tget tree i = Some o -> o_tableHandle o < h).
-
-Lemma INV3_INV tree g earlier h : INV3 tree g earlier h -> INV tree g earlier h.
-Proof.
-  intros (A & B & C & D & E & F & G & H & I). repeat (split; [assumption|]). split; [apply TM3_TM2; exact F|]. repeat (split; [assumption|]). assumption.
-Qed.
-
-Theorem parseAML_keeps_INV3 : DEF3new -> forall tree g earlier h data s,
-  INV3 tree g earlier h -> fits tree data -> parseAML tree earlier h data = Ok (true, s) ->
-  exists g', INV3 (p_tree s) g' (earlier ++ [data]) (h + 1).
-Proof.
-  intros HD tree g earlier h data s (HR & Hi & H0 & Hr0 & Hsb & HTM & Hty & Hpool & Hh) (Him & Hcap) E.
-  assert (Hfresh : forall i o, tget tree i = Some o -> o_tableHandle o <> h) by (intros i o Ho E'; specialize (Hh i o Ho); lia).
-  pose proof (parseAML_body_post3 HD tree g earlier h data (parse_fuel (length data + length (t_pool tree)))
-                HR Hi H0 Hr0 Hsb HTM Hty Hpool Hfresh Him Hcap) as W.
-  unfold parseAML in E. rewrite E in W. destruct W as (g' & HR' & Hi' & _ & Hb). destruct (Hb eq_refl) as (B0 & B1 & B2 & B3 & B4).
-  assert (Him' : image_ok data) by (destruct Him as (Hb' & Hl); split; [exact Hb'|unfold two32 in *; lia]).
-  destruct (parseAML_inv tree earlier h data true s Him' Hpool E) as (Hp' & _).
-  exists g'. split; [exact HR'|]. split; [exact Hi'|]. split; [exact B0|]. split; [exact B1|]. split; [exact B3|].
-  split; [exact B4|]. split; [exact B2|]. split; [exact Hp'|].
-  intros i o Ho. assert (Hle : o_tableHandle o <= h); [|lia].
-  apply (parseAML_handles tree earlier h data true s (fun j oj Hj => N.lt_le_incl _ _ (Hh j oj Hj)) E i o Ho).
-Qed.
-
-(** the sizes only: the image and the quadratic memory bound over the pool at each step *)
-Fixpoint SEQ3 (tree : T) (earlier : list (list N)) (h : N) (payloads : list (list N)) : Prop :=
-  match payloads with
-  | [] => True
-  | p :: rest =>
-      let data := table_image p in
-      fits tree data /\
-      forall s, parseAML tree earlier h data = Ok (true, s) -> SEQ3 (p_tree s) (earlier ++ [data]) (h + 1) rest
-  end.
-
-Theorem load_tables_never_panics3 : DEF3new -> forall payloads tree g earlier h,
-  INV3 tree g earlier h -> SEQ3 tree earlier h payloads -> fst (fst (load_tables tree earlier h payloads)) <> 2.
-Proof.
-  intros HD. induction payloads as [|p rest IH]; intros tree g earlier h HI HS; cbn [load_tables]; [cbn; discriminate|].
-  cbn [SEQ3] in HS. cbv zeta in HS. destruct HS as (Hfit & Hnext).
-  pose proof (INV3_INV _ _ _ _ HI) as (HR & Hi & H0 & Hr0 & Hsb & HTM & Hty & Hpool & Hh). pose proof Hfit as (Him & Hcap).
-  assert (Hfresh : forall i o, tget tree i = Some o -> o_tableHandle o <> h) by (intros i o Ho E; specialize (Hh i o Ho); lia).
-  pose proof (parseAML_never_panics tree g earlier h (table_image p) HR Hi H0 Hr0 Hsb HTM Hty Hpool Hfresh Him Hcap) as W.
-  cbv zeta. destruct (parseAML tree earlier h (table_image p)) as [[[|] s]| |] eqn:E; cbn [fst]; try discriminate; [|contradiction].
-  destruct (parseAML_keeps_INV3 HD tree g earlier h (table_image p) s HI Hfit E) as (g' & HI').
-  apply (IH (p_tree s) g' (earlier ++ [table_image p]) (h + 1) HI' (Hnext s eq_refl)).
-Qed.
-
-Lemma ds_INV3 : INV3 ds_tree ds_ghost [] 1.
-Proof.
-  destruct ds_INV as (A & B & C & D & E & _ & G & H & I). repeat (split; [assumption|]). split; [|repeat (split; [assumption|]); assumption].
-  unfold TM3. apply (ds_all (fun m mo => o_opcode mo = aml_pOpMethod -> mtyped3 ds_tree ds_ghost m)). intros n o Hlt Hn Hop.
-  ds_cases n Hlt Hn o ltac:(vm_compute in Hop; discriminate).
-Qed.
-
-Theorem load_never_panics3 : DEF3new -> forall payloads, SEQ3 ds_tree [] 1 payloads -> fst (fst (load payloads)) <> 2.
-Proof.
-  intros HD payloads HS. unfold load. rewrite ds_create. exact (load_tables_never_panics3 HD payloads ds_tree ds_ghost [] 1 ds_INV3 HS).
-Qed.
 
 (** ---- the hypotheses are satisfiable: a pool with a root scope and one Method (name path, flags byte); both passes return ok ---- *)
 Definition mx_ops : list op :=
